@@ -124,17 +124,19 @@ def tasks(tier, seed):
     def t(rule, m, sup, cf, cands=C.K3, opts=None, **kw):
         d = {"kind": "call", "module": "props.c17", "func": "run_law", "harness": "c17.dictator", "closed_form": cf, "law_label": cf,
              "params": {"rule": rule, "m": m, "family": sup, "cands": cands, "opts": opts or {}},
-             "sig_keys": ["rule", "m"], "name": f"{rule} m={m} {[C.shape_str(s) for s in sup]}", "weight": 3 * len(sup) * m}
+             "sig_keys": ["rule", "m"], "name": f"{rule} m={m} {[C.shape_str(s) for s in sup]}", "weight": 3 * len(sup) * m,
+             "no_assert_ok": True, "budget_s": 600 if q else 2400, "max_paths": 20000 if q else 100000}
         d.update(kw)
         return d
     fams = [F.fam("A", "B>A", "AB>C", "C>B>A"), F.fam("A>B", "B", "C>A>B"), F.fam("A>B>C", "B>C>A", "C>A>B", "AC>B")]
     if not q:
         fams += [F.fam("ABC", "A>B", "C"), F.fam("A>C", "B>C", "C", "AB")]
     for fam in fams:
-        for sup in supports_of([fam], sizes=(2, 3) if q else None):
+        for sup in supports_of([fam], sizes=(2, 3) if q else (2, 3, 4)):
             for m in (1, 2):
                 out.append(t("RandomDictator", m, sup, "random_dictator"))
-                out.append(t("BoostedRandomDictator", m, sup, "boosted_random_dictator"))
+                if len(sup) <= 3 or m == 1:
+                    out.append(t("BoostedRandomDictator", m, sup, "boosted_random_dictator"))
     if not q:
         f4 = F.fam("A>B", "B>C>D", "CD>A", "D")
         for sup in supports_of([f4], sizes=(2, 3)):
